@@ -55,6 +55,26 @@ def random_rates(rng, tps, multi=None):
     return out
 
 
+def byte_quota_scenarios(prefix, extra_cfg):
+    """byte-weighted use: amounts are request sizes, quotas are hourly/daily, so deficits of 10^5..10^7 tokens meet periods of
+    10^12..10^14 ns (tick 100 ms; timePerToken one tick)."""
+    out = []
+    fam = [(864000, 864000, 400000, [400000, 150000, 300000, 399999, 1]),         # 864000 per 24 h
+           (36000, 36000, 6000000, [6000000, 3000000, 5500000, 2000000, 1]),      # 36000 per hour
+           (864000, 864000, 250000, [250000, 110000, 250000, 100000])]
+    for i, (p, a, b, amounts) in enumerate(fam):
+        for level in ("http", "set"):
+            for k, n in enumerate(amounts[1:]):   # one scenario per deficit, so that each starts from an empty bucket
+                steps = [{"op": "req", "src": "s1", "n": amounts[0]},
+                         {"op": "req", "src": "s1", "n": n}, {"op": "retry", "src": "s1"}, {"op": "req", "src": "s1", "n": 1},
+                         {"op": "adv", "d": 7}, {"op": "req", "src": "s1", "n": n}, {"op": "retry", "src": "s1"}, {"op": "idle", "src": "s1"}]
+                cfg = {"tick_ms": 100, "rates": [{"p": p, "a": a, "b": b}], "cap": 65536, "level": level, "extract": "custom",
+                       "qualified": b <= 5 * a}   # C03 is guaranteed only when the burst refills within the remembered time
+                cfg.update(extra_cfg)
+                out.append({"id": "%s-bytes-%d-%d-%s" % (prefix, i, k, level), "cfg": cfg, "steps": steps})
+    return out
+
+
 def ttl_ticks(rates, tps):
     return ((max(r["p"] for r in rates) // tps) * 10 + 1) * tps
 
